@@ -4,6 +4,7 @@ package main
 // and the property text, not from the validators), used as an implementation-only oracle for C16.
 
 import (
+	didtypes "github.com/medibloc/panacea-core/v2/x/did/types"
 	"regexp"
 	"strings"
 
@@ -57,4 +58,109 @@ func specAccepts(kind string, a []string) (bool, bool) {
 		return ascii(a[0]) && specDID.MatchString(a[0]) && a[2] != "" && specAddr(a[3]), true
 	}
 	return false, false
+}
+
+// specDocAccepts: the published rules for a DID document carried by MsgCreateDID / MsgUpdateDID (docs/did.md), written
+// independently of x/did/types: the message is accepted iff the DID is well formed, a document is present with that id,
+// at least one verification method and one authentication, every verification method id is "<did>#<1..128 non-space bytes>",
+// has a type and a base58 key, every relationship is either such a method or a reference that RESOLVES to an entry of
+// verificationMethod, contexts start with the W3C DID v1 context without duplicates or blanks, controllers are DIDs,
+// services are complete, and a proof and a valid sender are given.
+func specDocAccepts(didField string, doc *didtypes.DIDDocument, vmID string, sig []byte, from string) bool {
+	isASCII := func(s string) bool {
+		for i := 0; i < len(s); i++ {
+			if s[i] >= 0x80 {
+				return false
+			}
+		}
+		return true
+	}
+	validDID := func(d string) bool { return isASCII(d) && specDID.MatchString(d) }
+	if !validDID(didField) || doc == nil || doc.Id == "" || doc.Id != didField || len(sig) == 0 || !specAddr(from) {
+		return false
+	}
+	vmIDok := func(id string) bool {
+		if !strings.HasPrefix(id, doc.Id+"#") {
+			return false
+		}
+		sfx := id[len(doc.Id)+1:]
+		if len(sfx) < 1 || len(sfx) > 128 {
+			return false
+		}
+		for i := 0; i < len(sfx); i++ {
+			switch sfx[i] {
+			case ' ', '\t', '\n', '\f', '\r':
+				return false
+			}
+		}
+		return true
+	}
+	b58 := func(k string) bool {
+		if k == "" {
+			return false
+		}
+		for i := 0; i < len(k); i++ {
+			if !strings.ContainsRune("123456789ABCDEFGHJKLMNPQRSTUVWXYZabcdefghijkmnopqrstuvwxyz", rune(k[i])) || k[i] >= 0x80 {
+				return false
+			}
+		}
+		return true
+	}
+	vmOK := func(vm *didtypes.VerificationMethod) bool { return vm != nil && vmIDok(vm.Id) && vm.Type != "" && b58(vm.PublicKeyBase58) }
+	if len(doc.VerificationMethods) == 0 || len(doc.Authentications) == 0 {
+		return false
+	}
+	listed := map[string]bool{}
+	for _, vm := range doc.VerificationMethods {
+		if !vmOK(vm) {
+			return false
+		}
+		listed[vm.Id] = true
+	}
+	for _, rels := range [][]didtypes.VerificationRelationship{doc.Authentications, doc.AssertionMethods, doc.KeyAgreements, doc.CapabilityInvocations, doc.CapabilityDelegations} {
+		for _, r := range rels {
+			if r.GetVerificationMethod() != nil {
+				if !vmOK(r.GetVerificationMethod()) {
+					return false
+				}
+			} else if id := r.GetVerificationMethodId(); !vmIDok(id) || !listed[id] {
+				return false
+			}
+		}
+	}
+	if doc.Contexts != nil {
+		cs := []string(*doc.Contexts)
+		if len(cs) == 0 || cs[0] != "https://www.w3.org/ns/did/v1" {
+			return false
+		}
+		seen := map[string]bool{}
+		for _, c := range cs {
+			if c == "" || seen[c] {
+				return false
+			}
+			seen[c] = true
+		}
+	}
+	if doc.Controller != nil {
+		cs := []string(*doc.Controller)
+		allEmpty := true
+		for _, c := range cs {
+			if c != "" {
+				allEmpty = false
+			}
+		}
+		if !allEmpty { // a controller list that is absent, empty or all blanks means "the subject itself"
+			for _, c := range cs {
+				if !validDID(c) {
+					return false
+				}
+			}
+		}
+	}
+	for _, sv := range doc.Services {
+		if sv == nil || sv.Id == "" || sv.Type == "" || sv.ServiceEndpoint == "" {
+			return false
+		}
+	}
+	return true
 }
